@@ -511,6 +511,10 @@ for _c in PROOFS:
 
 # ------------------------------------------------------------------------------------------------ self-test catalogue
 MUTATIONS = [
+    dict(name='image_string_pool_keyed_by_casefold', file='choreo.py',
+         old="    add_to_pool = binformat.find_or_insert(pool, lambda x: x)\n    deferred = binformat.DeferredWrites(file)",
+         new="    add_to_pool = binformat.find_or_insert(pool, str.casefold)\n    deferred = binformat.DeferredWrites(file)",
+         expect='choreo.targeted'),
     dict(name='cmdseq_pad_allows_one_too_many', file='cmdseq.py', old="    if len(text) > length:", new="    if len(text) > length + 1:",
          expect='cmdseq.pad_strip'),
     dict(name='cmdseq_strip_keeps_terminator', file='cmdseq.py', old="        return data[:data.index(b'\\0')].decode('ascii')",
